@@ -192,14 +192,9 @@ impl MarkdownWriter {
                         // inside a cell the pipe of a piped wiki link is escaped
                         events.push(Event::InlineHtml(format!("[[{}\\|{}]]", url, text).into()));
                     } else if !is_ref_url(&url) && text == url && has_scheme(&url) {
-                        events.push(Event::Start(Tag::Link {
-                            title: title.into(),
-                            link_type: pulldown_cmark::LinkType::Autolink,
-                            dest_url: url.into(),
-                            id: "".into(),
-                        }));
-                        events.extend(self.inlines_to_events(inlines));
-                        events.push(Event::End(TagEnd::Link));
+                        // the address goes between angle brackets as it is: a backslash in front
+                        // of a bracket would become part of the address
+                        events.push(Event::InlineHtml(format!("<{}>", url).into()));
                     } else {
                         events.push(Event::Start(Tag::Link {
                             title: title.into(),
